@@ -140,6 +140,16 @@ func (c *Ctx) Emit(req map[string]interface{}, implResult interface{}, nontrivia
 	return k
 }
 
+// Attempt records, before an operation that can take the whole process down (a view laid over foreign memory: the
+// garbage collector or a fault ends the process, nothing can be recovered), which case is about to run.  The
+// driver reads the file when the harness dies and reports that case as the failing input.
+func (c *Ctx) Attempt(class string, input interface{}) {
+	_ = os.WriteFile(filepath.Join(c.dir, "current.json"), mustJSON(map[string]interface{}{"class": class, "input": input}), 0o644)
+}
+
+// Done: the campaign ended normally, no case is pending.
+func (c *Ctx) Done() { _ = os.Remove(filepath.Join(c.dir, "current.json")) }
+
 // Count records an oracle-only evaluation (no model line), for distribution and counts.
 func (c *Ctx) Count(input interface{}, nontrivial bool) {
 	c.evals++
